@@ -207,6 +207,19 @@ CHECKS["C07"] = {
     "note": TB + "; Python id()/deepcopy semantics; sharing of immutable values and exception objects is not aliasing",
 }
 
+CHECKS["C12"] = {
+    "text": "AndSplit.tla states the six-step scanner of split_multiple_persons_names at character-class level (with the "
+            "escape step) and, independently, the set of separator occurrences of one left-to-right pass; MC_AndSplit "
+            "enumerates every sequence of up to 5 (quick: 1.1e5) / 6 (1.1e6) macro tokens {word character, and, an, d, blank, "
+            "{, }, escape+letter, escape+'a', escape+blank} and proves Conservation, Idempotent and, on brace-balanced input, "
+            "Split = RefPieces; every sequence is concretised in three spellings (case of 'and', blank kinds, escapes, '~', ',') "
+            "and run through split_multiple_persons_names and SeparateCoAuthors/MergeCoAuthors on author/editor/translator; "
+            "random author lists of 1-60 names are abstracted to classes, split by TLC and compared, with idempotence on the "
+            "code.",
+    "ref": "6/C12", "technique": "TLA+ spec (AndSplit.tla: operational scanner vs declarative separator rule) model-checked with TLC + bounded-exhaustive replay + TLC oracle on random lists",
+    "note": TB + "; character classes a/n/d/x/w/{/}/backslash",
+}
+
 NOT_APPLICABLE = {}
 for _e in ENGINES:
     _e["serves_properties"] = sorted(CHECKS)
